@@ -73,6 +73,15 @@ pub enum Act {
     #[form(tag = "send")]
     Send { target: u32, v: u64, mode: u32 },
     /// Record the state of the stores (observed after a restart).
+    /// `transform_entry` on a map lane: insert or replace (`v` is the new value whatever was there).
+    #[form(tag = "xf")]
+    Xf { lane: u32, k: i32, v: u64 },
+    /// `transform_entry` whose closure returns nothing: removes the entry if there is one.
+    #[form(tag = "xfrem")]
+    XfRem { lane: u32, k: i32 },
+    /// The handler fails here (a non-fatal effect error: the runtime rejects the command frame).
+    #[form(tag = "fail")]
+    Fail,
     #[form(tag = "dump")]
     Dump,
     #[form(tag = "stop")]
@@ -146,6 +155,13 @@ impl TestLifecycle {
             Act::Rem { lane: 0, k } => context.remove(TestAgent::M1, m1_key(k)).boxed(),
             Act::Rem { lane: 1, k } => context.remove(TestAgent::M2, k).boxed(),
             Act::Rem { k, .. } => context.remove(TestAgent::M3, k).boxed(),
+            Act::Xf { lane: 0, k, v } => context.transform_entry(TestAgent::M1, m1_key(k), move |_| Some(v)).boxed(),
+            Act::Xf { lane: 1, k, v } => context.transform_entry(TestAgent::M2, k, move |_| Some(v)).boxed(),
+            Act::Xf { k, v, .. } => context.transform_entry(TestAgent::M3, k, move |_| Some(v)).boxed(),
+            Act::XfRem { lane: 0, k } => context.transform_entry(TestAgent::M1, m1_key(k), |_: Option<&u64>| None).boxed(),
+            Act::XfRem { lane: 1, k } => context.transform_entry(TestAgent::M2, k, |_: Option<&u64>| None).boxed(),
+            Act::XfRem { k, .. } => context.transform_entry(TestAgent::M3, k, |_: Option<&u64>| None).boxed(),
+            Act::Fail => context.fail::<(), _>(std::io::Error::other("scripted handler failure")).boxed(),
             Act::Clr { lane: 0 } => context.clear(TestAgent::M1).boxed(),
             Act::Clr { lane: 1 } => context.clear(TestAgent::M2).boxed(),
             Act::Clr { .. } => context.clear(TestAgent::M3).boxed(),
